@@ -759,3 +759,13 @@ mod tests {
         assert_eq!(fields, &[field(max_entries + 6), field(max_entries + 10)]);
     }
 }
+
+#[cfg(feature = "verif-hooks")]
+impl Decoder {
+    pub fn verif_from_table(table: DynamicTable) -> Self {
+        Self { table }
+    }
+    pub fn verif_table(&mut self) -> &mut DynamicTable {
+        &mut self.table
+    }
+}
